@@ -11,6 +11,7 @@ import "C"
 
 import (
 	"fmt"
+	"os"
 	"time"
 	"unsafe"
 )
@@ -240,6 +241,9 @@ func (z *Solver) Assert(t *Term) {
 	z.NAssert++
 	z.TMk += t1.Sub(t0)
 	z.TAssert += time.Since(t1)
+	if debugSlow && time.Since(t1) > 5*time.Millisecond {
+		fmt.Printf("SLOW ASSERT %v size=%d: %.300s\n", time.Since(t1), dagSize(t), t.String())
+	}
 }
 
 // Check decides asserted ∧ extra. vars: variables whose values are wanted in the model.
@@ -387,4 +391,22 @@ func varsOf(t *Term) map[string]bool {
 	}
 	walk(t)
 	return out
+}
+
+var debugSlow = os.Getenv("GOSYM_SLOW") != ""
+
+func dagSize(t *Term) int {
+	seen := map[*Term]bool{}
+	var walk func(*Term)
+	walk = func(x *Term) {
+		if x == nil || seen[x] {
+			return
+		}
+		seen[x] = true
+		for _, a := range x.A {
+			walk(a)
+		}
+	}
+	walk(t)
+	return len(seen)
 }
